@@ -186,7 +186,47 @@ def runCmap (args : List String) : Res :=
       tags := s!"target={target} shards={shards} used={used} size={a.ref.length}" }
   | _ => bad "cmap-args"
 
+/-! `cmapconc park <target> <nkeys> <initmask> <ops> <obs>`: the operations were issued while a parked
+`Range` held the lock they all need, so they are pairwise concurrent and any order of them is a legal
+linearization.  The observation is each operation's result followed by the quiescent `Load`s, `Len`
+and `Range`; it is accepted iff some order of the operations, run on the sequential reference map,
+produces exactly it. -/
+
+def perms {α} : List α → List (List α)
+  | [] => [[]]
+  | x :: xs => (perms xs).flatMap fun p => (List.range (p.length + 1)).map fun i => p.take i ++ x :: p.drop i
+
+/-- run the indexed operations in the given order; results are reported by original index -/
+def parkRun (init : List Entry) (order : List (Nat × MapOp)) (n : Nat) : String :=
+  let (m, rs) := order.foldl (fun (acc : List Entry × List (Nat × String)) (iop : Nat × MapOp) =>
+    let (m, rs) := acc
+    match iop.2 with
+    | .store k v => (refStore m k v, (iop.1, "_") :: rs)
+    | .delete k => (refDelete m k, (iop.1, "_") :: rs)
+    | .load k => (m, (iop.1, match refLoad m k with | some v => toString v | none => "-") :: rs)
+    | .len => (m, (iop.1, toString m.length) :: rs)
+    | _ => (m, (iop.1, "?") :: rs)) (init, [])
+  let res := (List.range n).map fun i => ((rs.find? (·.1 == i)).map (·.2)).getD "?"
+  s!"{"|".intercalate res};F={showEntries m};L={m.length};R={showEntries m}"
+
+def runCmapPark (args : List String) : Res :=
+  match args with
+  | [_target, nkeys, initmask, ops, obs] =>
+    let nk := nkeys.toNat!
+    let mask := initmask.toNat!
+    let init : List Entry := (List.range nk).filterMap fun i => if mask.testBit i then some (i, 10 + i) else none
+    let opl := (ops.splitOn ",").map parseMapOp
+    let iops := (List.range opl.length).zip opl
+    if obs.startsWith "not-blocked" then { out := obs, spec := "ok", tags := "park" } else
+    let outs := (perms iops).map fun p => parkRun init p opl.length
+    if outs.contains obs then { out := "done", spec := "ok", tags := s!"park ops={opl.length}" }
+    else { out := s!"no-order-of-the-operations-explains:{obs}", spec := "ok", tags := "park" }
+  | _ => bad "cmappark-args"
+
 /-- `cmapconc …`: checked entirely on the harness side (see the module comment) -/
-def runCmapConc (_args : List String) : Res := { out := "ok", spec := "ok", tags := "conc" }
+def runCmapConc (args : List String) : Res :=
+  match args with
+  | "park" :: rest => runCmapPark rest
+  | _ => { out := "ok", spec := "ok", tags := "conc" }
 
 end Drv
